@@ -1291,6 +1291,7 @@ package mcap
     ensures [crc-inv] {C06} r1 == nil ==> crcInv(r0)
     ensures [file-crc-covers-from-first-byte] {C06} r1 == nil && opts.IncludeCRC ==> crcFrom(r0) == old(offered(w))
     ensures [chunk-time-inv] {C05} r1 == nil ==> chunkTimeInv(r0) && idxKeyed(r0) && r0.w.size == ite(opts.SkipMagic, 0, 8) && (opts.Chunked ==> r0.compressedWriter.size == 0)
+    ensures [no-state-planted-in-the-callers-options] {C13} opts.Compressor == old(opts.Compressor)
 @*/
 
 // ---------------------------------------------------------------------------------------------
